@@ -84,3 +84,49 @@ Proof. exact ssize_s_exact_or_zero. Qed.
 Theorem C20_size_is_shape_size : forall t, ssize t = ssize_s (shape t).
 Proof. exact ssize_shape. Qed.
 Print Assumptions C20_size_declared_lengths.
+
+(* ------------------------------------------------------------------------------------------ *)
+(* The growth arithmetic of the containers as the C source of this run has it (gen/Gen_effects.v,
+   translator/effects.py; Bridge_effects.v; HPlans_proofs.v): the plan generated from
+   cbor_array_push / _cbor_map_add_key / cbor_(byte)string_add_chunk makes at most one request, a
+   _cbor_realloc_multiple of the slot size times max 1 (2 * capacity) slots, a capacity that strictly
+   grew and did not wrap; and the byte count the model hands to the allocator for it is the exact
+   product, below 2^64. *)
+From Coq Require Import String List.
+From CB Require Import HItems GenLeafTypes HPlans HPlans_proofs Bridge_effects.
+From CBGen Require Import Gen_effects.
+Import ListNotations.
+
+Theorem C20_code_growth_plans : forall definite e al ok cnt cap, e < 2^64 -> al < 2^64 -> cnt < 2^64 -> cap < 2^64 ->
+  Gcbor_array_push (Z.of_N al) (dst_z definite) (Z.of_N e) ok = array_push_plan definite e al ok /\
+  G_cbor_map_add_key (Z.of_N al) (dst_z definite) (Z.of_N e) ok = map_add_key_plan definite e al ok /\
+  Gcbor_bytestring_add_chunk (Z.of_N cap) (Z.of_N cnt) ok = add_chunk_plan cnt cap ok /\
+  Gcbor_string_add_chunk (Z.of_N cap) (Z.of_N cnt) ok = add_chunk_plan cnt cap ok.
+Proof.
+  intros definite e al ok cnt cap He Ha Hc Hp.
+  split; [exact (bridge_plan_array_push definite e al ok He Ha)|].
+  split; [exact (bridge_plan_map_add_key definite e al ok He Ha)|].
+  split; [exact (bridge_plan_bytestring_add_chunk cnt cap ok Hc Hp) | exact (bridge_plan_string_add_chunk cnt cap ok Hc Hp)].
+Qed.
+Print Assumptions C20_code_growth_plans.
+
+Theorem C20_growth_request_exact :
+  forall fields owner fld isz stores g full cap cnt ok r,
+  cap < 2 ^ 64 ->
+  In r (p_reqs (append_plan fields owner fld isz stores g full cap cnt ok)) ->
+  exists c, r = ReqReallocMultiple (PField owner fld) (zN isz) (zN c) /\
+            p_reqs (append_plan fields owner fld isz stores g full cap cnt ok) = [r] /\
+            c = N.max 1 (2 * cap) /\ cap < c /\ c < 2 ^ 64 /\ full = true /\ g = true.
+Proof. exact append_plan_requests. Qed.
+Theorem C20_growth_request_bytes : forall isz c b,
+  isz < 2 ^ 64 -> c < 2 ^ 64 -> alloc_multiple_req 64 isz c = Some b -> b = isz * c /\ b < 2 ^ 64.
+Proof. exact multiple_request_exact. Qed.
+Print Assumptions C20_growth_request_exact.
+
+(* the same for the generated text: every request of the plan generated from cbor_array_push *)
+Theorem C20_code_array_push_request : forall definite e al ok r, e < 2^64 -> al < 2^64 ->
+  In r (p_reqs (Gcbor_array_push (Z.of_N al) (dst_z definite) (Z.of_N e) ok)) ->
+  exists c, r = ReqReallocMultiple (PField (PArg 0) "data"%string) (Z.of_N SZ_PTR) (Z.of_N c) /\
+            c = N.max 1 (2 * al) /\ al < c /\ c < 2 ^ 64.
+Proof. exact code_array_push_request. Qed.
+Print Assumptions C20_code_array_push_request.
